@@ -267,7 +267,8 @@ Definition o_fx : toracles :=
        (fun s => if bytes_eqb s fx_ip_text then Some fx_ip else if bytes_eqb s fx_ip2_text then Some fx_ip2 else None)
        (fun a => if bytes_eqb a fx_ip then fx_ip_text else if bytes_eqb a fx_ip2 then fx_ip2_text else [])
        (fun s => if bytes_eqb s fx_net_text then Some ([10;0;0;0], 8, 32) else None)
-       (fun a ones => if bytes_eqb a fx_ip && (ones =? 104) then fx_net_text else []).
+       (fun a ones => if bytes_eqb a fx_ip && (ones =? 104) then fx_net_text else [])
+       (fun _ => None) (fun _ => []).
 Definition fx_rearrange (ns : list record) : list record :=
   match ns with
   | [] => []
